@@ -1,0 +1,39 @@
+// SPDX-FileCopyrightText: 2023 The Pion community <https://pion.ly>
+// SPDX-License-Identifier: MIT
+
+//go:build verif
+// +build verif
+
+package stun
+
+import (
+	"crypto/sha1" //nolint:gosec
+	"crypto/sha256"
+	"hash"
+
+	"github.com/pion/stun/v3/internal/hmac"
+)
+
+// Verification hooks (build tag "verif" only): re-export the internal pooled
+// HMAC so that an out-of-module harness can drive it. No behaviour is added.
+
+// VerifAcquireSHA1 is hmac.AcquireSHA1.
+func VerifAcquireSHA1(key []byte) hash.Hash { return hmac.AcquireSHA1(key) }
+
+// VerifPutSHA1 is hmac.PutSHA1.
+func VerifPutSHA1(h hash.Hash) { hmac.PutSHA1(h) }
+
+// VerifAcquireSHA256 is hmac.AcquireSHA256.
+func VerifAcquireSHA256(key []byte) hash.Hash { return hmac.AcquireSHA256(key) }
+
+// VerifPutSHA256 is hmac.PutSHA256.
+func VerifPutSHA256(h hash.Hash) { hmac.PutSHA256(h) }
+
+// VerifNewHMAC is hmac.New with SHA-1 or SHA-256.
+func VerifNewHMAC(sha256Alg bool, key []byte) hash.Hash {
+	if sha256Alg {
+		return hmac.New(sha256.New, key)
+	}
+
+	return hmac.New(sha1.New, key)
+}
